@@ -803,9 +803,12 @@ func (f *flow) cond(e ast.Expr, s *astate) (t, fa []*astate) {
 			if f.ruleCanFail != nil && !f.ruleCanFail(rn) {
 				return oks, nil
 			}
+			// a rule *function* that returns false has restored position and token
+			// index itself (the wrapper contract, an obligation of every model's
+			// root rule: its false outcome must be at (E, K)); only a body emitted
+			// in place under -inline leaves them undefined, and that is no call
 			bad := s.clone()
 			bad.hist = append(bad.hist, fmt.Sprintf("rule%s@(%s,%s):fail", rn, s.pos, s.tok))
-			bad.pos, bad.tok = "?", "?"
 			return oks, []*astate{bad}
 		case obj != nil && obj == f.gf.objs["matchDot"]:
 			yes, no := split(f.u, s.know, s.pos, func(r rune) bool { return r != uEnd })
